@@ -335,7 +335,7 @@ def run(chk, tier):
 
     # (C) the real routines: enumerated, random and foreign patterns through harness/xfloat_drv.c
     fam = ("lite", "mini") if quick else ("boundary", "lite")
-    nrand = 4000 if quick else 100000
+    nrand = 2500 if quick else 100000
     jobs = [pool.submit(_harness, h, ["enum", fam[0], "none"], os.path.join(d, "enumS.ndjson")),
             pool.submit(_harness, h, ["enum", "none", fam[1]], os.path.join(d, "enumD.ndjson")),
             pool.submit(_harness, h, ["rand", chk.seed, nrand, nrand], os.path.join(d, "rand.ndjson")),
@@ -360,7 +360,7 @@ def run(chk, tier):
     for j in jobs[:4]:
         p = j.result()
         tag = os.path.basename(p)[:-7]
-        nch = {"enumS": 2 if quick else 4, "enumD": 4 if quick else 16, "rand": 2 if quick else 12,
+        nch = {"enumS": 1 if quick else 4, "enumD": 2 if quick else 16, "rand": 1 if quick else 12,
                "xenum": 1 if quick else 4}[tag]
         for cp in _split(p, nch, d, tag):
             vfuts.append((os.path.basename(cp), cp, pool.submit(_validate, cp)))
